@@ -4,14 +4,14 @@ import Rl4co.Spec.Op
 namespace Rl4co.Driver.Op
 open Rl4co.Proto
 
-/-- header `n L tol` | prize[1..n] | D (n+1)² row-major | budget[0..n] | cbound[0..n] | actions -/
-def parseInst (toks : List String) : Option (Rl4co.Op.Inst × Int × List Nat) := do
+/-- header `n L tol U rho` (`U` = value of 1.0 in the instance's unit, `rho` = float32 rounding bound) | prize[1..n] | D (n+1)² row-major | budget[0..n] | cbound[0..n] | actions -/
+def parseInst (toks : List String) : Option (Rl4co.Op.Inst × Int × List Nat × Int × Int) := do
   let [hd, pr, dm, bud, cb, acts] ← parseSections toks | none
-  let [n, L, tol] := hd | none
+  let [n, L, tol, U, rho] := hd | none
   let n := n.toNat
   let i : Rl4co.Op.Inst :=
     { n := n, L := L, D := fn2 (n + 1) dm, prize := fn1From1 pr, budget := fn1 bud, cbound := fn1 cb }
-  pure (i, tol, toNats acts)
+  pure (i, tol, toNats acts, U, rho)
 
 /-- infeasible only by a length excess within `tol` -/
 def near (i : Rl4co.Op.Inst) (tol : Int) (as : List Nat) : Bool :=
@@ -21,12 +21,12 @@ def verdicts (i : Rl4co.Op.Inst) (tol : Int) (as : List Nat) : String :=
   s!"check={bit (Rl4co.Op.check i as)} feas={bit (Rl4co.Spec.Op.feasible i as)} near={bit (near i tol as)} slack={Rl4co.Spec.Op.slack i as} obj={Rl4co.Spec.Op.objective i as}"
 
 def episode (toks : List String) : Option String := do
-  let (i, tol, as) ← parseInst toks
+  let (i, tol, as, U, rho) ← parseInst toks
   let tr := episodeTrace Rl4co.Op.env i as
-  pure s!"{tr} reward={Rl4co.Op.reward i as} rassert={bit (Rl4co.Op.rewardAssert as)} {verdicts i tol as} bound={max (i.n + 1) 2}"
+  pure s!"{tr} reward={Rl4co.Op.reward i as} rassert={bit (Rl4co.Op.rewardAssert as)} {verdicts i tol as} bound={max (i.n + 1) 2} precomp={bit (Rl4co.Op.precomp i U rho)} cprecomp={bit (Rl4co.Op.checkPrecomp i U rho)}"
 
 def check (toks : List String) : Option String := do
-  let (i, tol, as) ← parseInst toks
+  let (i, tol, as, _, _) ← parseInst toks
   pure (verdicts i tol as)
 
 def handlers : List (String × (List String → Option String)) :=
@@ -38,19 +38,20 @@ namespace Rl4co.Driver.Op
 open Rl4co.Proto
 
 /-- `op.check1col B | n_1 a_1 cbound_1[0..n_1] | … | n_B a_B cbound_B[0..n_B] | X (B×B row-major)`:
-the batched checker on a single-column action tensor (only `n`, `cbound` of an instance matter). -/
+the batched checker on a single-column action tensor (only `n`, `cbound` of an instance matter; the cross-row
+distances `X` are still transmitted but no longer enter the model: regression probe of upstream fix 9be001b). -/
 def check1col (toks : List String) : Option String := do
   let secs ← parseSections toks
   let [b] ← secs.head? | none
   let B := b.toNat
   let rowSecs := (secs.drop 1).take B
-  let xs ← (secs.drop (1 + B)).head?
+  let _xs ← (secs.drop (1 + B)).head?
   let rows ← rowSecs.mapM (fun sec => match sec with
     | n :: a :: cb =>
       some (({ n := n.toNat, L := 0, D := fun _ _ => 0, prize := fun _ => 0, budget := fun _ => 0,
                cbound := fn1 cb } : Rl4co.Op.Inst), a.toNat)
     | _ => none)
-  pure s!"check={bit (Rl4co.Op.checkSingleColumnBatch rows (fn2 B xs))}"
+  pure s!"check={bit (Rl4co.Op.checkSingleColumnBatch rows)}"
 
 def handlers1 : List (String × (List String → Option String)) :=
   handlers ++ [("op.check1col", check1col)]
